@@ -26,17 +26,19 @@ Cfg(j) == [kt |-> j.kt, variant |-> j.variant, id |-> HexToBytes(j.id), key |-> 
 Cfgs(js) == [i \in 1..Len(js) |-> Cfg(js[i])]
 
 \* mode "keyset": e.keys (first = primary) -- a single key is a keyset of one;
-\* mode "envelope": e.keys is the remote (KEK) keyset, e.dek the DEK key type.
+\* mode "envelope": e.keys is the remote (KEK) keyset, e.dek the DEK key type, e.ep the output prefix of the
+\* envelope key itself when it lives in a keyset (empty otherwise).
 Open(e, ct, ad) ==
-  IF e.mode = "envelope" THEN EnvelopeOpen(Cfgs(e.keys), e.dek, ct, ad)
+  IF e.mode = "envelope" THEN EnvelopeKeyOpen(HexToBytes(e.ep), Cfgs(e.keys), e.dek, ct, ad)
   ELSE KeysetOpen(Cfgs(e.keys), ct, ad)
 
 \* length the documented format gives a ciphertext of a ptLen-byte plaintext
 WantLen(e, ct, ptLen) ==
   IF e.mode = "envelope"
-  THEN LET f == EnvelopeParse(ct)
-           d == KeysetOpen(Cfgs(e.keys), f.encDEK, <<>>)
-       IN EnvelopeLen(Len(f.encDEK), DEKConfig(e.dek, d[2]), ptLen)
+  THEN LET ep == HexToBytes(e.ep)
+           f  == EnvelopeParse(Drop(ct, Len(ep)))
+           d  == KeysetOpen(Cfgs(e.keys), f.encDEK, <<>>)
+       IN Len(ep) + EnvelopeLen(Len(f.encDEK), DEKConfig(e.dek, d[2]), ptLen)
   ELSE AEADCiphertextLen(Cfg(e.keys[1]), ptLen)
 
 JudgeEncrypt(e) ==
